@@ -164,6 +164,89 @@ static void scenario (std::size_t pre)
   }
 }
 
+// iterator algebra (C01 "returned iterator positions", C02 "all iterator flavours agree", C18 "random-access iterators"):
+// every operator of small_vector_iterator — pre/post ++ and --, +=, -=, it + n, n + it, it - n, it - it, [], ->, *, the six
+// comparisons, also between iterator and const_iterator, the converting constructor, reverse iterators — against plain
+// index arithmetic on data ()
+template <typename V>
+static void iterator_algebra (V& v, const char *what, unsigned n)
+{
+  typedef typename V::iterator It;
+  typedef typename V::const_iterator CIt;
+  typedef typename V::difference_type D;
+  const V& cv = v;
+  const D sz = static_cast<D> (v.size ());
+  bool ok = true;
+  std::string why;
+#define IT_CHECK(cond) do { ++g_checks; if (! (cond)) { if (ok) why = #cond; ok = false; } } while (0)
+  IT_CHECK (v.end () - v.begin () == sz);
+  IT_CHECK (cv.end () - cv.begin () == sz);
+  IT_CHECK (v.cend () - v.cbegin () == sz);
+  IT_CHECK (v.rend () - v.rbegin () == sz);
+  IT_CHECK (v.crend () - v.crbegin () == sz);
+  IT_CHECK (cv.rend () - cv.rbegin () == sz);
+  for (D i = 0; i <= sz; ++i)
+  {
+    It a = v.begin () + i;
+    CIt ca = a;                       // converting constructor
+    IT_CHECK (a - v.begin () == i);
+    IT_CHECK (ca - v.cbegin () == i);
+    IT_CHECK (i + v.begin () == a);
+    IT_CHECK (v.end () - (sz - i) == a);
+    IT_CHECK (v.end () - a == sz - i);
+    IT_CHECK (ca == a); IT_CHECK (a == ca); IT_CHECK (! (ca != a)); IT_CHECK (! (a != ca));
+    { It t = v.begin (); t += i; IT_CHECK (t == a); t -= i; IT_CHECK (t == v.begin ()); }
+    { It t = v.end (); t -= (sz - i); IT_CHECK (t == a); t += (sz - i); IT_CHECK (t == v.end ()); }
+    if (i < sz)
+    {
+      IT_CHECK (&*a == v.data () + i);
+      IT_CHECK (&*ca == cv.data () + i);
+      IT_CHECK (&v.begin ()[i] == v.data () + i);
+      IT_CHECK (&v.cbegin ()[i] == cv.data () + i);
+      IT_CHECK (a.operator-> () == v.data () + i);
+      IT_CHECK (&(v.end ()[i - sz]) == v.data () + i);
+      { It t = a; It r = t++; IT_CHECK (r == a); IT_CHECK (t - a == 1); It q = ++r; IT_CHECK (q == t); IT_CHECK (r == t); }
+      IT_CHECK (&*(v.rbegin () + (sz - 1 - i)) == v.data () + i);
+      IT_CHECK (&*(v.rend () - (i + 1)) == v.data () + i);
+    }
+    if (i > 0)
+    {
+      It t = a; It r = t--; IT_CHECK (r == a); IT_CHECK (a - t == 1); It q = --r; IT_CHECK (q == t); IT_CHECK (r == t);
+      CIt ct = ca; --ct; IT_CHECK (&*ct == cv.data () + (i - 1));
+    }
+    for (D j = 0; j <= sz; ++j)
+    {
+      It b = v.begin () + j;
+      CIt cb = v.cbegin () + j;
+      IT_CHECK ((a == b) == (i == j)); IT_CHECK ((a != b) == (i != j));
+      IT_CHECK ((a < b) == (i < j));   IT_CHECK ((a <= b) == (i <= j));
+      IT_CHECK ((a > b) == (i > j));   IT_CHECK ((a >= b) == (i >= j));
+      IT_CHECK ((a < cb) == (i < j));  IT_CHECK ((ca <= b) == (i <= j));
+      IT_CHECK ((ca > b) == (i > j));  IT_CHECK ((a >= cb) == (i >= j));
+      IT_CHECK (b - a == j - i);       IT_CHECK (cb - a == j - i);      IT_CHECK (b - ca == j - i);
+      IT_CHECK (a + (j - i) == b);     IT_CHECK (b - (j - i) == a);     IT_CHECK ((j - i) + a == b);
+      { It t = a; t += (j - i); IT_CHECK (t == b); t -= (j - i); IT_CHECK (t == a); }      // offsets of both signs
+      { CIt t = ca; t -= (i - j); IT_CHECK (t == cb); t += (i - j); IT_CHECK (t == ca); }
+      if (j < sz) { IT_CHECK (&a[j - i] == v.data () + j); IT_CHECK (&ca[j - i] == cv.data () + j); }
+    }
+  }
+#undef IT_CHECK
+  if (! ok) fail (std::string ("iterator algebra, ") + what + " (N=" + std::to_string (n) + ", size " + std::to_string (v.size ()) + "): " + why);
+}
+
+template <typename T, unsigned N>
+static void iterator_scenarios (void)
+{
+  for (std::size_t sz = 0; sz <= 2 * N + 3; sz += (sz < 4 ? 1 : 3))
+  {
+    gch::small_vector<T, N> v;
+    for (std::size_t i = 0; i < sz; ++i) v.push_back (mk<T> (static_cast<int> (i)));
+    iterator_algebra (v, "after push_back", N);
+    if (sz > 1) { v.erase (v.begin ()); iterator_algebra (v, "after erase", N); }
+    v.shrink_to_fit (); iterator_algebra (v, "after shrink_to_fit", N);
+  }
+}
+
 // an element type WITHOUT assignment operators (std::vector accepts it for construction, push_back / emplace_back,
 // reserve, resize, pop_back, clear and assign from single-pass iterators): the header has a dedicated
 // assign_with_range overload for it ("if not assignable then destroy all elements and append")
@@ -240,6 +323,8 @@ int main (void)
 {
   all<int> ();
   all<std::string> ();
+  iterator_scenarios<int, 0> (); iterator_scenarios<int, 3> (); iterator_scenarios<int, 8> ();
+  iterator_scenarios<std::string, 0> (); iterator_scenarios<std::string, 2> (); iterator_scenarios<std::string, 5> ();
   for (std::size_t pre = 0; pre <= 7; ++pre)
     for (std::size_t n = 0; n <= 9; n += 3)
     {
